@@ -7,6 +7,7 @@ real code did.
 """
 import copy
 import random
+import zlib
 import re
 import sys
 import threading
@@ -24,6 +25,8 @@ from .concretise import Concretisation, same_value
 from .values import EXC, ScriptedInterrupt, BadKey, ScriptedError1, ScriptedError2
 
 FALSY = [0, '', [], {}, False, 0.0, ()]
+INTERRUPTS = [ScriptedInterrupt, SystemExit, KeyboardInterrupt, ScriptedInterrupt, GeneratorExit]
+INTERRUPT_TYPES = (ScriptedInterrupt, SystemExit, KeyboardInterrupt, GeneratorExit)
 
 
 def mutate_in_place(v, depth=0):
@@ -199,7 +202,7 @@ def build_class(recorder, ctx, world, cls_params, has_extractor, opt_sets, class
         ctx.body_log.append(entry)
         b = st.get('body', 'plain') if st is not None and st.get('kind') == 'in' and not ctx.in_inner else 'plain'
         if b == 'interrupt':
-            raise ScriptedInterrupt('scripted interrupt in body of %s' % alias)
+            raise ctx.interrupt_cls('scripted interrupt in body of %s' % alias)
         if b == 'discards':
             tr.discard_recording()
         elif b == 'forces':
@@ -284,7 +287,7 @@ def build_class(recorder, ctx, world, cls_params, has_extractor, opt_sets, class
             ctx.body_log.append({'alias': alias, 'thread': threading.current_thread().name})
             t, v = st['res']
             if t == 'int':
-                raise ScriptedInterrupt('scripted interrupt in output body')
+                raise ctx.interrupt_cls('scripted interrupt in output body')
             if t == 'exc':
                 ex = EXC[v]('scripted %s from output %s' % (v, alias))
                 ctx.out_objects.append(ex)
@@ -373,7 +376,7 @@ def build_class(recorder, ctx, world, cls_params, has_extractor, opt_sets, class
         ctx.cur = None
         t, v = ctx.end
         if t == 'int':
-            raise ScriptedInterrupt('scripted interrupt of the operation')
+            raise ctx.interrupt_cls('scripted interrupt of the operation')
         if t == 'exc':
             ctx.end_object = EXC[v]('scripted %s from operation' % v)
             raise ctx.end_object
@@ -510,7 +513,7 @@ class Driver(object):
                     return ('exc', name)
             return ('exc', type(obj).__name__)
         if t == 'abort':
-            if isinstance(obj, ScriptedInterrupt):
+            if isinstance(obj, INTERRUPT_TYPES):
                 return ('int', 'BI')
             if isinstance(obj, pbexc.TapeRecorderException):
                 return ('err', type(obj).__name__)
@@ -596,14 +599,15 @@ class Driver(object):
         ctx.out_objects = []
         ctx.observe = self._observe
         ctx.subst_value = ('substitute', 1)
-        ctx.subst_falsy = FALSY[self.conc_seed % len(FALSY)]
+        ctx.subst_falsy = FALSY[self.beh_hash % len(FALSY)]
         ctx.default_result = ('default-result',)
         ctx.user_data = {'user': ['data', 1]}
         ctx.junk = [('a', 1), 5]
         ctx.sent_object = lambda v: copy.deepcopy(self.conc.value(v))
         ctx.result_object = lambda v: copy.deepcopy(self.conc.value(v))
-        ctx.fb_as_list = (self.conc_seed % 2 == 0)
+        ctx.fb_as_list = ((self.beh_hash // 16) % 2 == 0)
         ctx.replaying = False
+        ctx.interrupt_cls = self.interrupt_cls
         # what the caller saw is projected onto tokens at the moment it is seen (later steps may mutate the objects)
         ctx.project = lambda seen, st: (self._replay_seen_token(seen, st) if ctx.replaying else self._seen_token(seen))
         pyclasses = {}
@@ -621,11 +625,17 @@ class Driver(object):
 
     def run(self, beh):
         out = []
-        self.conc = Concretisation(self.conc_seed, prefer_mutable=(self.conc_seed % 2 == 1),
-                                   confusable=('arg1', 'arg2') if self.conc_seed % 3 == 2 else ())
+        # the concretisation varies per behaviour (not only per run of the check), so that even one concretisation per
+        # behaviour covers, over the thousands of behaviours of a run, mutable / type-confusable / plain values
+        h = zlib.crc32(repr([(s['ev']['kind'], s['ev']['step']['alias'], s['ev']['step']['arg'], s['ev']['step']['body'])
+                             for s in beh]).encode()) ^ (self.conc_seed * 2654435761 & 0xffffffff)
+        self.beh_hash = h
+        self.conc = Concretisation(h, prefer_mutable=(h % 2 == 1),
+                                   confusable=('arg1', 'arg2') if (h // 2) % 2 == 0 else ())
+        self.interrupt_cls = INTERRUPTS[(h // 8) % len(INTERRUPTS)]
         # reserve the special values so that no value token is concretised to something equal to them
         self.conc.map['__subst_value'] = ('substitute', 1)
-        self.conc.map['__subst_falsy'] = FALSY[self.conc_seed % len(FALSY)]
+        self.conc.map['__subst_falsy'] = FALSY[self.beh_hash % len(FALSY)]
         self.conc.map['__default'] = ('default-result',)
         self.world = World(self.conc, self.world_tokens)
         inner = self.cassette_factory()
@@ -729,7 +739,7 @@ class Driver(object):
         if end is None:
             end = ('val', 'v1')  # unreachable: the operation is cut short by an interrupt in a body
         if self.vary_threads:
-            trnd = random.Random(self.conc_seed * 31 + i0)
+            trnd = random.Random(self.beh_hash * 31 + i0)
             for st in steps:
                 st['th'] = 1 if trnd.random() < 0.3 else 0
         ctx.steps = steps
@@ -771,7 +781,7 @@ class Driver(object):
         elif exp_end[0] == 'exc':
             ok = seen_op[0] == 'raise' and seen_op[1] is ctx.end_object
         else:
-            ok = seen_op[0] == 'raise' and isinstance(seen_op[1], ScriptedInterrupt)
+            ok = seen_op[0] == 'raise' and isinstance(seen_op[1], INTERRUPT_TYPES)
         if not ok:
             self._mm(out, 'seen', j, exp_end, (seen_op[0], repr(seen_op[1])[:200]),
                      'operation outcome differs from the undecorated code')
@@ -1002,7 +1012,7 @@ class Driver(object):
                 steps.append(st)
                 step_idx.append(x)
         if self.vary_threads:
-            trnd = random.Random(self.conc_seed * 37 + i0)
+            trnd = random.Random(self.beh_hash * 37 + i0)
             for st in steps:
                 st['th'] = 1 if trnd.random() < 0.3 else 0
         ctx.steps = steps
